@@ -108,3 +108,43 @@ func HarnessC19Unknown(a []int) {
 		verifAssert("C19.unknown_unlisted", !listed && d == nil)
 	}
 }
+
+func init() {
+	verifHarnesses["HarnessC19Concurrent"] = HarnessC19Concurrent
+}
+
+// HarnessC19Concurrent: a = {main, sub}: two goroutines produce an instance each and decode different
+// payloads into them at the same time; under the happens-before check any access of both to one
+// datapoint object is a race, and afterwards each instance holds its own value.
+func HarnessC19Concurrent(a []int) {
+	main, sub := a[0], a[1]
+	name := dptName(main, sub)
+	L := dptWireLen(main)
+	if L == 0 {
+		L = 4
+	}
+	p1, p2 := nondetBytes(L), nondetBytes(L)
+	var d [2]Datapoint
+	var errs [2]error
+	done := make(chan int, 2)
+	for i, p := range [][]byte{p1, p2} {
+		i, p := i, p
+		go func() {
+			x, _ := Produce(name)
+			errs[i] = x.Unpack(p)
+			d[i] = x
+			done <- i
+		}()
+	}
+	<-done
+	<-done
+	verifAssert("C19.conc.distinct", d[0] != d[1])
+	if errs[0] == nil && errs[1] == nil {
+		// each instance re-encodes what was decoded into it, untouched by the other goroutine
+		r1, _ := Produce(name)
+		r2, _ := Produce(name)
+		verifAssert("C19.conc.own_value", r1.Unpack(p1) == nil && r2.Unpack(p2) == nil && verifSame(d[0], r1) && verifSame(d[1], r2))
+		verifCover("C19.conc.both_decoded")
+	}
+	verifCover("C19.conc.end")
+}
